@@ -857,10 +857,19 @@ func runChain(t *rapid.T, rec *ev.Rec) {
 		w.Stakes = nodesim.BoundaryStakes(t, w.NVals, residue)
 		pKinds, bKinds = frozenKinds, frozenKinds
 	}
+	// half of the remaining chains have an EQUALLY staked committee (the common production case; "count the signers"
+	// shortcuts are exact there only as long as nothing but real signer bits is counted)
+	equal := !boundary && rapid.Bool().Draw(t, "equalStakes")
+	if equal {
+		for i := range w.Stakes {
+			w.Stakes[i] = w.Stakes[0]
+		}
+		pKinds, bKinds = frozenKinds, frozenKinds
+	}
 	ring := nodesim.NewKeyRing(w.NVals + w.Spare)
 	// half of the non-constructed chains run on the NESTED chain of a two-chain setup: the certificate's root height and
 	// the victim's current root height can differ (root-chain progress with stake changes in the middle of a height)
-	nested := !boundary && rapid.Bool().Draw(t, "nested")
+	nested := !boundary && !equal && rapid.Bool().Draw(t, "nested")
 	rootGen, chainGen := w.Genesis(0), w.Genesis(0)
 	var rootW *nodesim.World
 	if nested {
@@ -889,6 +898,9 @@ func runChain(t *rapid.T, rec *ev.Rec) {
 	}
 	g := &nodesim.Group{Sim: sim, Ring: ring, Nodes: []*nodesim.Node{a, b}}
 	chainDesc := fmt.Sprintf("stakes=%v nested=%v", w.Stakes, nested)
+	if equal {
+		chainDesc += " equal-stakes"
+	}
 	// rootStep commits one root-chain height containing the given transactions (plus the pending certificate results)
 	rootStep := func(txs ...[]byte) {
 		for _, tx := range txs {
@@ -1003,6 +1015,10 @@ func runChain(t *rapid.T, rec *ev.Rec) {
 		}
 		if e.height > 1 {
 			cands = append(cands, e.genLastQC(t)) // the inner last-certificate re-check is reachable here: always try it
+		}
+		if equal {
+			// equally staked committee: a below-threshold signer set with EVERY padding bit set, and one with unsigned member bits
+			cands = append(cands, e.genCandidateOf(t, "padding-bits"), e.genCandidateOf(t, "padding-bits"), e.genCandidateOf(t, "extra-bits"))
 		}
 		if e.shift != nil {
 			for _, dir := range []string{"up", "down", "up"} {
